@@ -12,6 +12,10 @@
    * a WithRef carries its query (Sql.WRef alias q), so the WITH list of a Select is not
      consulted: `FROM alias`, `IN (alias)`, `JOIN alias` evaluate the query the reference holds;
    * PREWHERE is WHERE (documented: "PREWHERE is an optimisation ... same semantics");
+   * a SELECT alias is visible in WHERE / PREWHERE / GROUP BY / HAVING / ORDER BY and in the other SELECT
+     expressions, and it WINS over a source column of the same name (prefer_column_name_to_alias = 0, the
+     default): every source row is extended with the alias bindings (two passes: an alias may use aliases
+     that use source columns only; a binding whose expression does not evaluate on the row is left out);
    * GROUP BY groups by the key tuple, aggregates see the rows of their group, non-aggregate
      expressions see the first row of the group;
    * ORDER BY is a stable sort and `ANY LEFT JOIN` takes the first matching right row, both AFTER
@@ -181,6 +185,44 @@ Definition shl64 (b i : N) : N := N.modulo (N.shiftl b i) 18446744073709551616.
 Definition labels_map_raw : string :=
   "mapFromArrays(arrayMap(x -> x.1, JSONExtractKeysAndValues(time_series.labels, 'String') as rawlbls), arrayMap(x -> x.2, rawlbls))".
 
+(* the raw fragment ParserPlanner installs as the fingerprint of a re-labelled row; interpreted through the
+   hash oracle applied to the value of `labels` *)
+Definition fp_labels_raw : string := "cityHash64(arraySort(arrayZip(mapKeys(labels),mapValues(labels))))".
+
+(* mapUpdate(m1, m2): m1 with the pairs of m2 written over it (new keys appended) *)
+Fixpoint map_set (m : list (string * string)) (k v : string) : list (string * string) :=
+  match m with
+  | [] => [(k, v)]
+  | kv :: r => if String.eqb (fst kv) k then (k, v) :: r else kv :: map_set r k v
+  end.
+Definition map_update (m1 m2 : list (string * string)) : list (string * string) :=
+  fold_left (fun m kv => map_set m (fst kv) (snd kv)) m2 m1.
+
+(* string literals of a list of objects *)
+Fixpoint str_lits (l : list expr) : option (list string) :=
+  match l with
+  | [] => Some []
+  | StrV s :: r => match str_lits r with Some ss => Some (s :: ss) | None => None end
+  | _ => None
+  end.
+(* mapDropFilter's lambda  (k,v) -> k!='a' and (k, v)!=('b', 'x') ... : the pairs it removes *)
+Fixpoint drop_specs (cl : list expr) : option (list (string * option string)) :=
+  match cl with
+  | [] => Some []
+  | Sep sep parts :: r =>
+    let one := match parts with
+               | [Raw t; StrV k] => if String.eqb sep "" && String.eqb t "k!=" then Some (k, None) else None
+               | [Raw t; StrV k; Raw t2; StrV v; Raw t3] =>
+                 if String.eqb sep "" && String.eqb t "(k, v)!=(" && String.eqb t2 ", " && String.eqb t3 ")" then Some (k, Some v) else None
+               | _ => None end in
+    match one, drop_specs r with Some x, Some xs => Some (x :: xs) | _, _ => None end
+  | _ => None
+  end.
+Definition drop_keeps (specs : list (string * option string)) (kv : string * string) : bool :=
+  forallb (fun sp => match snd sp with
+                     | None => negb (String.eqb (fst kv) (fst sp))
+                     | Some v => negb (String.eqb (fst kv) (fst sp) && String.eqb (snd kv) v) end) specs.
+
 (* ---------- ORDER BY: stable insertion sort on precomputed keys ---------- *)
 Section SORT.
   Context {A : Type} (leb : A -> A -> bool).
@@ -209,6 +251,9 @@ Definition all_int (vs : list value) : bool := forallb (fun v => match v with VI
 Section EVAL.
   Variable re_match : string -> string -> bool.      (* oracle: RE2 match(haystack, pattern) *)
   Variable parse_float : string -> option Q.         (* oracle: toFloat64OrNull / a float literal; finite values only *)
+  (* oracle: if(JSONType(doc, path...) == 'String', JSONExtractString(doc, path...), JSONExtractRaw(doc, path...)) *)
+  Variable json_get : string -> list string -> string.
+  Variable hash_labels : list (string * string) -> Z.  (* oracle: cityHash64 of the sorted pairs of a label map *)
   Variable tie : forall A : Type, list A -> list A.  (* arbitrary reordering (a permutation) *)
   Variable db : database.
 
@@ -222,6 +267,14 @@ Section EVAL.
   Section SEL.
     Variable etab : expr -> option table.                 (* a FROM / JOIN operand *)
     Variable ev : expr -> list row -> option value.       (* an expression over a group of rows *)
+
+    Definition alias_binds (cols : list expr) (env : row) : row :=
+      flat_map (fun c => match c with
+                         | Col x a => if String.eqb a "" then []
+                                      else match ev x [env] with Some v => [(a, v)] | None => [] end
+                         | _ => [] end) cols.
+    Definition arow (cols : list expr) (r : row) : row :=
+      (alias_binds cols (alias_binds cols r ++ r) ++ r)%list.
 
     Definition cond_ok (c : option expr) (r : row) : option bool :=
       match c with None => Some true | Some e => truthy (ev e [r]) end.
@@ -283,7 +336,8 @@ Section EVAL.
         let src := match s_from q with None => Some [[]] | Some f => etab f end in
         match fold_left join1 (s_joins q) src with
         | None => None
-        | Some rows0 =>
+        | Some rows00 =>
+          let rows0 := map (arow (s_cols q)) rows00 in
           match filter_opt (fun r => match cond_ok (s_prewhere q) r, cond_ok (s_where q) r with
                                      | Some a, Some b => Some (a && b) | _, _ => None end) rows0 with
           | None => None
@@ -340,6 +394,10 @@ Section EVAL.
                  match g with r :: _ => match lookup "time_series.labels" r with
                                         | Some (VMap m) => Some (VMap m) | _ => None end
                             | [] => None end
+               else if String.eqb s fp_labels_raw then
+                 match g with r :: _ => match lookup "labels" r with
+                                        | Some (VMap m) => Some (VInt (hash_labels m)) | _ => None end
+                            | [] => None end
                else None
     | Id s => match g with r :: _ => lookup s r | [] => None end
     | QRaw s => Some (VStr s)
@@ -394,6 +452,31 @@ Section EVAL.
           match ev a g, ev b g with
           | Some (VMap kvs), Some (VStr key) => Some (VStr (label_of kvs key))
           | _, _ => None end
+        else if String.eqb name "mapUpdate" then
+          match ev a g, ev b g with
+          | Some (VMap m1), Some (VMap m2) => Some (VMap (map_update m1 m2))
+          | _, _ => None end
+        else if String.eqb name "mapFilter" then
+          (* mapFilter((k,v) -> <mapDropFilter clauses>, m) *)
+          match a, ev b g with
+          | Sep sep [Raw t; Sep sep2 cl], Some (VMap m) =>
+            if String.eqb sep "" && String.eqb t "(k,v) -> " && String.eqb sep2 " and " then
+              match drop_specs cl with Some sp => Some (VMap (filter (drop_keeps sp) m)) | None => None end
+            else None
+          | _, _ => None end
+        else None
+      | [a; b; c0] =>
+        (* sqlJsonParser.path2Sql: if(JSONType(doc, p1,...,pn as jp) == 'String', JSONExtractString(doc, jp), JSONExtractRaw(doc, jp)) *)
+        if String.eqb name "if" then
+          match a, b, c0 with
+          | Sep sep [Fn jt [doc; Sep sep2 [Sep sep3 path; _]]; StrV t], Fn f1 _, Fn f2 _ =>
+            if String.eqb sep " == " && String.eqb jt "JSONType" && String.eqb sep2 " as " && String.eqb sep3 ","
+               && String.eqb t "String" && String.eqb f1 "JSONExtractString" && String.eqb f2 "JSONExtractRaw" then
+              match ev doc g, str_lits path with
+              | Some (VStr s), Some p => Some (VStr (json_get s p))
+              | _, _ => None end
+            else None
+          | _, _, _ => None end
         else None
       | [a] =>
         if String.eqb name "toFloat64OrNull" then
@@ -416,7 +499,20 @@ Section EVAL.
       | Some masks => Some (VInt (Z.of_N (fold_left N.lor masks 0%N)))
       | None => None
       end
-    | WRef _ _ | SubQ _ | Col _ _ | Ord _ _ | CtxParam _ _ | Sep _ _ | WithId _ => None
+    | WithId f => ev (f 0%N) g                 (* the id only names an alias inside the object *)
+    | Sep sep parts =>
+      (* sqlJsonParser: mapFromArrays(['l1',...], [<path2Sql>,...]) *)
+      match parts with
+      | [Raw t1; Sep s1 ls; Raw t2; Sep s2 ps; Raw t3] =>
+        if String.eqb sep "" && String.eqb t1 "mapFromArrays([" && String.eqb s1 "," && String.eqb t2 "], ["
+           && String.eqb s2 "," && String.eqb t3 "])" then
+          match str_lits ls, map_opt (fun p => match ev p g with Some (VStr v) => Some v | _ => None end) ps with
+          | Some ks, Some vs => if Nat.eqb (List.length ks) (List.length vs) then Some (VMap (combine ks vs)) else None
+          | _, _ => None end
+        else None
+      | _ => None
+      end
+    | WRef _ _ | SubQ _ | Col _ _ | Ord _ _ | CtxParam _ _ => None
     end
   with etab (e : expr) {struct e} : option table :=
     match e with
